@@ -39,7 +39,9 @@ ASSUMPTIONS = [
     "only the values, the shape and combine's attrs['key'] of the result are asserted (not dtype, dims, coords, name)",
     "datasets have at most 6 variables (data + reference layers), numpy backed; data_vars sub-lists are drawn from "
     "the data layers only, the default selection (data_vars=None) also includes the other variables of the dataset",
-    "value alphabets are small integers (of either sign) so every statistic is exact; mean/std compared with rtol=atol=1e-9",
+    "value alphabets are small integers (of either sign) so every statistic is exact (plus: infinities of both signs; and, with "
+    "data layers alternating between int64 and float64, the integers 2^53 .. 2^53+2, where a float layer stores 2^53+1 as 2^53 "
+    "and the oracle works on the STORED values; results are compared after conversion to float64, combine's key exactly); mean/std compared with rtol=atol=1e-9",
     "variable names are non-empty strings, pairwise different; a name may contain, or be contained in, another variable's name",
 ]
 NAN = float("nan")
@@ -49,7 +51,10 @@ INT3 = (0, 1, 2)
 NEG4 = (-2, -1, 0, NAN)       # no positive value: every cell is all-negative, all-zero or a mix of the two
 MIX4 = (-3, 0, 2, NAN)        # mixed signs
 NEGI3 = (-2, -1, 0)
-ALPHA_TAG = {NEG4: "neg210n", MIX4: "m302n", NEGI3: "neg210"}     # suffix of the space name / alphabet id in keys
+BIG3 = (2 ** 53, 2 ** 53 + 1, 2 ** 53 + 2)     # integers float64 cannot tell apart (2^53 + 1 rounds to 2^53); used with MIXED layer dtypes
+INF = float("inf")
+INF4 = (-INF, 1, INF, NAN)    # infinities of both signs: finite arithmetic on a cell may be NaN (inf - inf) although no layer is NaN
+ALPHA_TAG = {NEG4: "neg210n", MIX4: "m302n", NEGI3: "neg210", INF4: "inf1n", BIG3: "big2p53"}     # suffix of the space name / alphabet id in keys
 # name schemes: tag -> (data-layer names, reference-layer names)
 NAME_SCHEMES = {
     "sub3": (("b1", "b2", "b"), ("b12", "b21")),       # every data name is a proper substring of ref 'b12'; 'b2', 'b' of 'b21'
@@ -71,6 +76,12 @@ CONFIGS = {
               (1, NEG4, "f8", ("r",), 3), (2, NEG4, "f8", ("r", "s"), 1), (3, NEG4, "f8", ("r", "s"), 1),
               (2, MIX4, "f8", ("r", "s"), 1), (3, MIX4, "f8", ("r", "s"), 1),
               (2, NEGI3, "i8", ("r", "s"), 1), (3, NEGI3, "i8", ("r", "s"), 1), (4, NEGI3, "i8", ("r", "s"), 1),
+              # infinities of either sign in the layers
+              (2, INF4, "f8", ("r", "s"), 1), (3, INF4, "f8", ("r", "s"), 1),
+              # layers of DIFFERENT dtypes (int64 next to float64: a cell is the tuple of the stored values, compared exactly as
+              # Python numbers; no statistic: float64 arithmetic on integers beyond 2^53 is inexact by nature)
+              (2, BIG3, "i8+f8", ("r", "s"), 1), (3, BIG3, "i8+f8", ("r", "s"), 1), (2, INT3, "i8+f8", ("r", "s"), 1),
+              (2, BIG3, "f8+i8", ("r",), 1),
               # variable names containing / contained in one another
               (3, FLOAT4, "f8", None, 1, "sub3"), (3, INT3, "i8", None, 1, "sub3"),
               (2, FLOAT4, "f8", None, 1, "sub2"), (2, INT3, "i8", None, 1, "sub2"),
@@ -137,7 +148,7 @@ class LocalSpace(Space):
         self.orders = [list(o) for o in dict.fromkeys(tuple(o) for o in orders)]
         self.selections = [("default", i, None) for i in range(len(self.orders))] + \
                           [("explicit", 0, list(s)) for s in ordered_sublists(self.data, D, 1)]
-        self.ops = [("cell_stats", f, None) for f in STAT_SPELLINGS] + \
+        self.ops = ([] if alphabet is BIG3 else [("cell_stats", f, None) for f in STAT_SPELLINGS]) + \
                    [("combine", None, None), ("lowest_position", None, None), ("highest_position", None, None)] + \
                    [(fn, None, ref) for fn in model.FREQUENCIES + ("rank",) for ref in self.refs]
         self.radices = [len(ARRANGEMENTS), len(self.selections), len(self.ops), len(LAYOUTS)]
@@ -160,7 +171,8 @@ class LocalSpace(Space):
         shape = (w, h) if ARRANGEMENTS[arr_i] == "B" else (h, w)
         out = {}
         for k, name in enumerate(self.data):
-            out[name] = np.array([c[k] for c in cells], dtype=self.dtype).reshape(shape)
+            dts = self.dtype.split("+")
+            out[name] = np.array([c[k] for c in cells], dtype=dts[k % len(dts)]).reshape(shape)
         for k, name in enumerate(self.refs):
             out[name] = np.array([c[self.D + k] for c in cells], dtype="i8").reshape(shape)
         return out
